@@ -16,6 +16,11 @@
 //!                      implicit grid: OriginZeroLine::into_track_vec_index asserts)
 //!      last line `SUMMARY ...`.
 //!      family 0: anything; 1 (C05's subset): every tree has a display:none node below the root; 2 (C06's): a position:absolute one
+//! `vh taffytree cases <seed> <n> <start> <family> <maxnodes> real`   the same trees with the REAL cache (no exact-key hook): `R` = per
+//!      pass and node the 21 layout ints + the number of compute_cached_layout calls, of cache hits (event trace) and of
+//!      measure-function calls (counted per NodeId by the measure closure); `L` as above (model: coq/Model/TaffyEngineRealRun.v)
+//! `vh taffytree chains <start> <n> [step] [query limit]`   deterministic single-child chains over one measured leaf, real cache, same
+//!      `C` / `R` format + `Q <idx> <total queries> <description>` (see `tchain`); `SKIP <idx> <limit>` over the query limit
 //! `vh taffytree case <seed> <idx> [family] [maxnodes]`   one case again, with the tree printed on stderr
 //!
 //! Generator: `treegen::tree` (depth <= 4, <= `maxnodes` (default 12) nodes, <= 4 children), containers AND leaves display block /
@@ -255,6 +260,141 @@ pub fn lines(spec: &NodeSpec, passes: &[Size<AvailableSpace>]) -> Result<(String
     Ok((format!("C {}", j(&c)), format!("R {}", j(&exact)), differ))
 }
 
+/// REAL cache (no exact-key hook): per pass and node the 21 layout ints + (compute_cached_layout calls, cache hits, measure-function
+/// calls); second result = total queries.  Err = the implementation panicked (or ran over `query_limit`)
+pub fn lay_out_real(spec: &NodeSpec, passes: &[Size<AvailableSpace>], query_limit: u64) -> Result<(Vec<i64>, u64), String> {
+    use std::cell::RefCell;
+    use std::collections::HashMap;
+    taffy::verif_hooks::set_exact_key(false);
+    let mut t: TaffyTree<Ctx> = TaffyTree::new();
+    t.disable_rounding();
+    let mut ids = vec![];
+    let root = treegen::build(&mut t, spec, &mut ids);
+    let mut r = vec![];
+    let mut total = 0u64;
+    for avail in passes {
+        let meas: RefCell<HashMap<NodeId, i64>> = RefCell::new(HashMap::new());
+        taffy::verif_hooks::reset_queries();
+        taffy::verif_hooks::set_query_limit(query_limit);
+        taffy::verif_hooks::start_trace();
+        let res = std::panic::catch_unwind(std::panic::AssertUnwindSafe(|| {
+            t.compute_layout_with_measure(root, *avail, |known, av, id, ctx, _style| {
+                *meas.borrow_mut().entry(id).or_insert(0) += 1;
+                treegen::measure(known, av, ctx)
+            })
+            .unwrap();
+        }));
+        let trace = taffy::verif_hooks::take_trace();
+        taffy::verif_hooks::set_query_limit(u64::MAX);
+        if res.is_err() {
+            return Err("panic".to_string());
+        }
+        let mut q: HashMap<NodeId, (i64, i64)> = HashMap::new();
+        for ev in &trace {
+            if let taffy::verif_hooks::Event::Query { node, hit, .. } = ev {
+                let e = q.entry(*node).or_insert((0, 0));
+                e.0 += 1;
+                total += 1;
+                if *hit {
+                    e.1 += 1;
+                }
+            }
+        }
+        for id in &ids {
+            let l = t.unrounded_layout(*id);
+            let b = treegen::layout_bits(l);
+            r.push(b[0] as i64);
+            r.extend(b[1..].iter().map(|x| canon(f32::from_bits(*x)) as i64));
+            let (nq, nh) = q.get(id).copied().unwrap_or((0, 0));
+            r.extend([nq, nh, meas.borrow().get(id).copied().unwrap_or(0)]);
+        }
+    }
+    Ok((r, total))
+}
+
+pub fn enc_case(spec: &NodeSpec, passes: &[Size<AvailableSpace>]) -> Vec<i64> {
+    let mut c: Vec<i64> = vec![passes.len() as i64];
+    for avail in passes {
+        enc_avail(avail.width, &mut c);
+        enc_avail(avail.height, &mut c);
+    }
+    enc_node(spec, &mut c);
+    c
+}
+
+/// `C` / `R` lines of the real-cache mode; third = number of layout fields differing from the exact-key run
+pub fn lines_real(spec: &NodeSpec, passes: &[Size<AvailableSpace>]) -> Result<(String, String, usize), String> {
+    let c = enc_case(spec, passes);
+    let exact = lay_out(spec, passes, true)?;
+    let (real, _) = lay_out_real(spec, passes, u64::MAX)?;
+    let differ = exact.chunks(21).zip(real.chunks(24)).map(|(a, b)| a.iter().zip(b.iter()).filter(|(x, y)| x != y).count()).sum();
+    let j = |v: &Vec<i64>| v.iter().map(|x| x.to_string()).collect::<Vec<_>>().join(" ");
+    Ok((format!("C {}", j(&c)), format!("R {}", j(&real)), differ))
+}
+
+/// Deterministic single-child chains over ONE measured leaf (Text(17, 8)), the styles of C16's typical corpus
+/// (`c15::typical_styles`: index 0-2 flex, 3-5 grid, 6-8 block; variants: default / width:200 + align-items:center + flex-grow:1 /
+/// margin 3 + column wrap + min-width:10 + one fr column).
+///   part A, idx < CHAINS_A: all 3^d mixes of container KINDS (default styles 0 / 3 / 6) for depth d = 1..6 (3 + 9 + .. + 729 = 1092),
+///           digit j of the mix (base 3, 0 flex / 1 grid / 2 block) = the kind of the container j levels above the leaf;
+///           default leaf, max-content available space
+///   part B, idx = CHAINS_A + DEPTHS_B * typ + (depth - 1): the chain of C16's typical corpus number `typ` (0..6560: period-3 style mix (a,b,c),
+///           3 leaves, 3 available spaces: exactly `vh c16 typical`'s, corpus/C16-typical-baseline.json's index) cut at depth 1..DEPTHS_B
+pub const CHAINS_A: u64 = 1092;
+pub const CHAINS_TYP: u64 = 6561;
+pub const CHAIN_QUERY_LIMIT: u64 = 4000;
+pub const DEPTHS_B: u64 = 16;
+
+pub fn tchain(idx: u64) -> (NodeSpec, Vec<Size<AvailableSpace>>, String) {
+    let styles = crate::c15::typical_styles();
+    let kind = |k: usize| ["flex", "flex-w200", "flex-colwrap", "grid", "grid-w200", "grid-1fr", "block", "block-w200", "block-m3"][k];
+    if idx < CHAINS_A {
+        let (mut depth, mut rest, mut pow) = (1usize, idx, 3u64);
+        while rest >= pow {
+            rest -= pow;
+            pow *= 3;
+            depth += 1;
+        }
+        let mut node = NodeSpec { style: Style::default(), ctx: Some(Ctx::Text(17, 8.0)), children: vec![] };
+        let mut desc = vec![];
+        let mut m = rest;
+        for _ in 0..depth {
+            let k = (m % 3) as usize * 3;
+            m /= 3;
+            desc.push(kind(k));
+            node = NodeSpec { style: styles[k].clone(), ctx: None, children: vec![node] };
+        }
+        desc.reverse();
+        (node, vec![Size::MAX_CONTENT], format!("A depth {} root>{}>leaf", depth, desc.join(">")))
+    } else {
+        let j = idx - CHAINS_A;
+        let (typ, depth) = (j / DEPTHS_B, (j % DEPTHS_B) as usize + 1);
+        let n = 9u64;
+        let (a, b, c) = (typ % n, (typ / n) % n, (typ / (n * n)) % n);
+        let which_leaf = (typ / (n * n * n)) % 3;
+        let which_avail = (typ / (n * n * n * 3)) % 3;
+        let leaf = match which_leaf {
+            0 => Style::default(),
+            1 => Style { flex_grow: 1.0, ..Default::default() },
+            _ => Style { size: Size { width: length(50.0), height: auto() }, ..Default::default() },
+        };
+        let avail = match which_avail {
+            0 => Size::MAX_CONTENT,
+            1 => Size { width: AvailableSpace::Definite(300.0), height: AvailableSpace::Definite(200.0) },
+            _ => Size { width: AvailableSpace::MinContent, height: AvailableSpace::MaxContent },
+        };
+        let mut node = NodeSpec { style: leaf, ctx: Some(Ctx::Text(17, 8.0)), children: vec![] };
+        let mut desc = vec![];
+        for d in 0..depth {
+            let k = [a, b, c][d % 3] as usize;
+            desc.push(kind(k));
+            node = NodeSpec { style: styles[k].clone(), ctx: None, children: vec![node] };
+        }
+        desc.reverse();
+        (node, vec![avail], format!("B typical {} depth {} leaf {} avail {} root>{}>leaf", typ, depth, which_leaf, which_avail, desc.join(">")))
+    }
+}
+
 fn features(n: &NodeSpec, depth: usize, parent: Option<Display>, f: &mut [u64; 16]) {
     f[0] += 1;
     let cont = !n.children.is_empty() && n.style.display != Display::None;
@@ -296,11 +436,12 @@ pub fn main(args: &[String]) {
     match cmd {
         "cases" => {
             let (seed, n, start, family, maxnodes) = (num(1, 1), num(2, 100), num(3, 0), num(4, 0), num(5, 12));
+            let real = args.get(6).map(|s| s == "real").unwrap_or(false);
             let (mut lossy, mut skipped, mut twopass) = (0, 0, 0);
             let mut f = [0u64; 16];
             for idx in start..start + n {
                 let (spec, passes) = tcase(seed, idx, family, maxnodes);
-                match lines(&spec, &passes) {
+                match if real { lines_real(&spec, &passes) } else { lines(&spec, &passes) } {
                     Ok((c, r, d)) => {
                         println!("{c}\n{r}\nL {d}");
                         if d > 0 {
@@ -321,6 +462,23 @@ pub fn main(args: &[String]) {
                 "SUMMARY cases={} skipped={} real_key_differs={} two_pass={} nodes={} block={} flex={} grid={} hidden={} absolute={} measured={} mixed_nesting={}",
                 n, skipped, lossy, twopass, f[0], f[1], f[2], f[3], f[4], f[5], f[6], f[8]
             );
+        }
+        "chains" => {
+            // vh taffytree chains <start> <n> [step] [query limit]: chains start, start+step, ..
+            let (start, n, step, limit) = (num(1, 0), num(2, CHAINS_A), num(3, 1).max(1), num(4, CHAIN_QUERY_LIMIT));
+            let j = |v: &Vec<i64>| v.iter().map(|x| x.to_string()).collect::<Vec<_>>().join(" ");
+            for k in 0..n {
+                let idx = start + k * step;
+                if idx >= CHAINS_A + DEPTHS_B * CHAINS_TYP {
+                    break;
+                }
+                let (spec, passes, desc) = tchain(idx);
+                match lay_out_real(&spec, &passes, limit) {
+                    Ok((r, q)) => println!("C {}\nR {}\nQ {} {} {}", j(&enc_case(&spec, &passes)), j(&r), idx, q, desc),
+                    Err(_) => println!("SKIP {} {}", idx, limit),
+                }
+            }
+            println!("DONE");
         }
         "case" => {
             let (seed, idx, family, maxnodes) = (num(1, 1), num(2, 0), num(3, 0), num(4, 12));
@@ -349,7 +507,7 @@ pub fn main(args: &[String]) {
             }
         }
         _ => {
-            eprintln!("usage: vh taffytree cases <seed> <n> [start] [family] [maxnodes] | case <seed> <idx> [family] [maxnodes]");
+            eprintln!("usage: vh taffytree cases <seed> <n> [start] [family] [maxnodes] [real] | case <seed> <idx> [family] [maxnodes] | chains <start> <n> [step]");
             std::process::exit(2);
         }
     }
